@@ -71,7 +71,7 @@ def build(repo, findings):
         C('C18 wf-preserved', 'final(self).wf()'),
         C('C18 pop-empty-is-noop', 'old(self).frames@.len() == 0 ==> r is None && final(self).frames@ == old(self).frames@'),
         C('C18 pop-removes-exactly-the-front', 'old(self).frames@.len() > 0 ==> r is Some && r->Some_0 == old(self).frames@[0] && final(self).frames@ == old(self).frames@.drop_first()'),
-        C('C16 pop-of-handler-frame-reactivates-signal', '(old(self).frames@.len() > 0 && old(self).frames@[0].frame_type is TrapHandler) ==> final(self).active_trap_signals@ == old(self).active_trap_signals@.remove(old(self).frames@[0].frame_type->TrapHandler_0)'),
+        C('C16,C18 pop-of-handler-frame-reactivates-signal', '(old(self).frames@.len() > 0 && old(self).frames@[0].frame_type is TrapHandler) ==> final(self).active_trap_signals@ == old(self).active_trap_signals@.remove(old(self).frames@[0].frame_type->TrapHandler_0)'),
         C('C16 pop-other-frames-keep-active-set', '(old(self).frames@.len() == 0 || !(old(self).frames@[0].frame_type is TrapHandler)) ==> final(self).active_trap_signals@ == old(self).active_trap_signals@'),
         C('C16 suppress-count-untouched', 'final(self).trap_delivery_suppress_count == old(self).trap_delivery_suppress_count'),
     ])
